@@ -17,6 +17,9 @@ import JsonV.Lemmas.EncRender
 import JsonV.Lemmas.EncIff
 import JsonV.Lemmas.EncValue
 import JsonV.Lemmas.EncRaw
+import JsonV.Lemmas.EncOps
+import JsonV.Lemmas.EncValid
+import JsonV.Props.C01
 import JsonV.Spec.Names
 import JsonV.Model.Validate
 import JsonV.Gen.Straight
@@ -178,7 +181,7 @@ example : ∃ m, smRun 10000 Machine.init [.beginArr, .num] = .ok m ∧
 
 section Encoder
 open JsonV.Model.Encoder JsonV.Spec.Render JsonV.Spec.Names JsonV.Lemmas.EncNoop JsonV.Lemmas.EncRender
-open JsonV.Lemmas.EncIff JsonV.Lemmas.EncValue JsonV.Lemmas.EncRaw
+open JsonV.Lemmas.EncIff JsonV.Lemmas.EncValue JsonV.Lemmas.EncRaw JsonV.Lemmas.EncOps
 
 /-- A rejected `WriteToken` leaves the whole modelled state — output, machine (offsets, depth, indices),
 namespaces, options — exactly as it was. -/
@@ -270,7 +273,7 @@ theorem wv_ok_iff (o : Opts) (ts : List Tok) (e : Enc) (v : Bytes) (hlen : ts.le
     (h : runToks (Encoder.new o) ts = some e) :
     (writeValue e v).2 = none ↔
       ∃ out rest,
-        reformatValue o (2 * v.length + 2) (beforeToken e (valueKind v)) (skipWS v) e.m.depth = .ok (out, rest) ∧
+        reformatValue o (3 * v.length + 4) (beforeToken e (valueKind v)) (skipWS v) e.m.depth = .ok (out, rest) ∧
         skipWS rest = [] ∧
         Viable o.maxDepth ((ts.map kindOf) ++ [firstKind (valueKind v)]) ∧
         (valueKind v = 0x22 → o.allowDup = false → isNamePos (track o (PDA.init, []) ts).1 = true →
@@ -303,7 +306,7 @@ theorem out_render_value (o : Opts) (ts : List Tok) (e e' : Enc) (v : Bytes) (hl
     (h : runToks (Encoder.new o) ts = some e) (hw : writeValue e v = (e', none)) :
     e'.out = render o (ts ++ valueToks o v) := by
   obtain ⟨hI, hrun⟩ := runToks_inv o ts (encInv_new o) (by omega) h
-  obtain ⟨toks, rest, ht, hout⟩ := writeValue_render hI (by omega) v hw
+  obtain ⟨toks, rest, _, _, ht, hout, _, _⟩ := writeValue_inv hI (by omega) v hw
   have hvt : valueToks o v = toks := by simp [valueToks, ht]
   rw [hvt, hout, (out_render o ts e (by omega) h).1, render, render, renderFrom_append o ts toks _ _ hrun]
 
@@ -317,15 +320,127 @@ example :
       some "[\n\tnull,\n\t{\n\t\t\"a\": [\n\t\t\t1,\n\t\t\ttrue\n\t\t]\n\t}".toUTF8.toList := by
   decide +kernel
 
-/-- FULL STATEMENT, not proved (validated by the `enc valid` cross-check of the harness between the two
-Lean models and by predicate (ii) against an independent Go parser): the encoder's validator
-`reformatValue` and the decoder-side validator of slice C01 (`Model/Validate.lean`, proved sound for the
-grammar in Props/C01 `valid_sound`) accept the same texts.  With it, `wv_ok_iff` reads "v is one valid JSON
-value under the options". -/
-def reformat_valid_full : Prop :=
-  ∀ (o : Opts) (v : Bytes), o.maxDepth = JsonV.Model.Validate.maxNestingDepth →
-    ((∃ out rest, reformatValue o (2 * v.length + 2) [] (skipWS v) 1 = .ok (out, rest) ∧ skipWS rest = []) ↔
-      JsonV.Model.Validate.isValid ⟨o.allowInvalidUTF8, o.allowDup⟩ v = true)
+/-! ### Histories of WriteToken and WriteValue calls in any order (the full statement of C06)
+
+`histToks o cs` is the token history of a script `cs` of calls: a `WriteToken t` contributes `t`, a
+`WriteValue v` contributes `valueToks o v`.  `runOps e cs = some e'` says that every call of `cs` was
+accepted (rejected calls may be deleted first: `after_reject`). -/
+
+/-- **Output = rendering of the accepted tokens**, for every accepted script of tokens and raw values:
+the history is a viable prefix of a JSON stream and the bytes produced are its PDA-derived rendering
+under the options (so whenever the depth is back at 0 the output is exactly the accepted top-level
+values, newline-terminated). -/
+theorem out_render_hist (o : Opts) (cs : List Call) (e : Enc) (hlen : 2 * cs.length < 2^61)
+    (h : runOps (Encoder.new o) cs = some e) :
+    e.out = render o (histToks o cs) ∧ Viable o.maxDepth ((histToks o cs).map kindOf) ∧
+      e.m.depth = (track o (PDA.init, []) (histToks o cs)).1.length := by
+  obtain ⟨fs, ns, hI, hrun, htrack, hout⟩ := runOps_new o cs e hlen h
+  refine ⟨hout, by simp [Viable, hrun], ?_⟩
+  rw [htrack, depth_abs, hI.abs_eq]
+
+/-- **WriteToken succeeds iff the grammar allows it**, after any accepted script of tokens and raw values. -/
+theorem wt_ok_iff_hist (o : Opts) (cs : List Call) (e : Enc) (t : Tok) (hlen : 2 * cs.length + 1 < 2^61)
+    (h : runOps (Encoder.new o) cs = some e) :
+    (writeToken e t).2 = none ↔
+      (Viable o.maxDepth ((histToks o cs ++ [t]).map kindOf) ∧ badUTF8 o t = false ∧
+        (o.allowDup = false → FreshName o (histToks o cs) t)) :=
+  writeToken_ops_iff o cs e t hlen h
+
+/-- **WriteValue succeeds iff the text is a value the validator accepts and is acceptable here**, after any
+accepted script of tokens and raw values. -/
+theorem wv_ok_iff_hist (o : Opts) (cs : List Call) (e : Enc) (v : Bytes) (hlen : 2 * cs.length + 2 < 2^61)
+    (h : runOps (Encoder.new o) cs = some e) :
+    (writeValue e v).2 = none ↔
+      ∃ out rest,
+        reformatValue o (3 * v.length + 4) (beforeToken e (valueKind v)) (skipWS v) e.m.depth = .ok (out, rest) ∧
+        skipWS rest = [] ∧
+        Viable o.maxDepth (((histToks o cs).map kindOf) ++ [firstKind (valueKind v)]) ∧
+        (valueKind v = 0x22 → o.allowDup = false → isNamePos (track o (PDA.init, []) (histToks o cs)).1 = true →
+          unquote (out.drop (beforeToken e (valueKind v)).length) ∉ innermostNames o (histToks o cs)) :=
+  writeValue_ops_iff o cs e v hlen h
+
+/-- **A raw value acts like its tokens.**  From any state reached by an accepted script, an accepted
+`WriteValue v` and an accepted token-by-token writing of `valueToks o v` lead to the same output, the
+same abstract machine (frames: kinds and element counts of all open containers, hence depth and
+indices) and the same tracked names; and the tokens of `v` are viable after the history. -/
+theorem wv_as_tokens (o : Opts) (cs : List Call) (e e1 e2 : Enc) (v : Bytes)
+    (hlen : 2 * cs.length + (valueToks o v).length + 2 < 2^61)
+    (h : runOps (Encoder.new o) cs = some e) (h1 : writeValue e v = (e1, none))
+    (h2 : runToks e (valueToks o v) = some e2) :
+    e1.out = e2.out ∧ abs e1.m = abs e2.m ∧ (o.allowDup = false → e1.ns = e2.ns) ∧
+      Viable o.maxDepth ((histToks o cs ++ valueToks o v).map kindOf) := by
+  obtain ⟨fs, ns, hI, hrun, htrack, hout⟩ := runOps_new o cs e (by omega) h
+  obtain ⟨toks, rest, fs', ns', ht, hout1, htr, hI1⟩ := writeValue_inv hI (by omega) v h1
+  have hvt : valueToks o v = toks := by simp [valueToks, ht]
+  rw [hvt] at h2 hlen ⊢
+  obtain ⟨hr1, hr2⟩ := trackRun_run _ htr
+  obtain ⟨hI2, _⟩ := runToks_inv o toks hI (by omega) h2
+  rw [hr2] at hI2
+  have hout2 := (out_render_from toks (b := 2 * cs.length) (e := e) (e' := e2) (by rw [hI.opts]; exact hI.inv)
+    (by rw [hI.abs_eq]; exact hI.bottom) (by omega) h2).1
+  rw [hI.opts, hI.abs_eq] at hout2
+  refine ⟨by rw [hout1, hout2], by rw [hI1.abs_eq, hI2.abs_eq], fun hd => ?_, ?_⟩
+  · rw [(hI1.names hd).1, (hI2.names hd).1]
+  · simp only [Viable, List.map_append]
+    have : PDA.run o.maxDepth PDA.init (List.map kindOf (histToks o cs) ++ List.map kindOf toks) = some fs' := by
+      have := run_append_some hrun hr1
+      exact this
+    simp [this]
+
+/-! ### The encoder's validator and the grammar -/
+
+/-- **`reformatValue` accepts exactly the JSON texts** of the grammar selected by the options
+(RFC 8259 with nesting ≤ 10000; strict UTF-8 and paired surrogate escapes unless AllowInvalidUTF8; member
+names pairwise different after unescaping unless AllowDuplicateNames — `Spec/Grammar.lean`), i.e. exactly the
+texts that slice C01's decoder-side validator `Value.IsValid` accepts (`Props/C01.valid_iff`).  Proved by two
+simulations between the encoder model and the validator model (Lemmas/EncValid.lean), then C01's soundness
+and completeness for the grammar. -/
+theorem reformat_valid (o : Opts) (hmax : o.maxDepth = JsonV.Model.Validate.maxNestingDepth) (v : Bytes) :
+    ((∃ out rest, reformatValue o (3 * v.length + 4) [] (skipWS v) 1 = .ok (out, rest) ∧ skipWS rest = []) ↔
+      JsonV.Spec.Grammar.JText (JsonV.Props.C01.gopts (vopts o)) JsonV.Model.Validate.maxNestingDepth
+        (JsonV.Props.C01.nameKey (vopts o)) v) ∧
+    ((∃ out rest, reformatValue o (3 * v.length + 4) [] (skipWS v) 1 = .ok (out, rest) ∧ skipWS rest = []) ↔
+      JsonV.Model.Validate.isValid (vopts o) v = true) := by
+  have h := JsonV.Lemmas.EncValid.reformat_iff_grammar o hmax 0 (Nat.zero_le _) [] v
+  have h1 : (∃ out rest, reformatValue o (3 * v.length + 4) [] (skipWS v) 1 = .ok (out, rest) ∧ skipWS rest = []) ↔
+      JsonV.Spec.Grammar.JText (JsonV.Props.C01.gopts (vopts o)) JsonV.Model.Validate.maxNestingDepth
+        (JsonV.Props.C01.nameKey (vopts o)) v := h
+  exact ⟨h1, h1.trans (JsonV.Props.C01.valid_iff (vopts o) v).symm⟩
+
+/-- **WriteValue succeeds iff the argument is one valid JSON value that may stand here** — the full
+statement, after any accepted script of tokens and raw values: `WriteValue v` succeeds iff
+`v = ws value ws` with `value` a value of the grammar selected by the options whose nesting fits under the
+current depth (`JValue … d value`, `d` = number of open containers), the PDA admits the value's first token
+after the history (a value in name position must be a string; a container must not exceed the depth limit),
+and a raw string in name position denotes a name not yet used in the innermost open object. -/
+theorem wv_ok_iff_grammar (o : Opts) (hmax : o.maxDepth = JsonV.Model.Validate.maxNestingDepth)
+    (cs : List Call) (e : Enc) (v : Bytes) (hlen : 2 * cs.length + 2 < 2^61)
+    (h : runOps (Encoder.new o) cs = some e) :
+    (writeValue e v).2 = none ↔
+      (∃ w1 val w2, JsonV.Spec.Grammar.JWs w1 ∧
+          JsonV.Spec.Grammar.JValue (JsonV.Props.C01.gopts (vopts o)) JsonV.Model.Validate.maxNestingDepth
+            (JsonV.Props.C01.nameKey (vopts o)) e.m.stack.length val ∧
+          JsonV.Spec.Grammar.JWs w2 ∧ v = w1 ++ val ++ w2) ∧
+        Viable o.maxDepth (((histToks o cs).map kindOf) ++ [firstKind (valueKind v)]) ∧
+        (valueKind v = 0x22 → o.allowDup = false → isNamePos (track o (PDA.init, []) (histToks o cs)).1 = true →
+          ∀ out rest, reformatValue o (3 * v.length + 4) (beforeToken e (valueKind v)) (skipWS v) e.m.depth =
+            .ok (out, rest) →
+            unquote (out.drop (beforeToken e (valueKind v)).length) ∉ innermostNames o (histToks o cs)) := by
+  obtain ⟨fs, ns, hI, _, _, _⟩ := runOps_new o cs e (by omega) h
+  have hd : e.m.stack.length ≤ JsonV.Model.Validate.maxNestingDepth := by rw [← hmax]; exact hI.inv.depth
+  have hg := JsonV.Lemmas.EncValid.reformat_iff_grammar o hmax e.m.stack.length hd (beforeToken e (valueKind v)) v
+  rw [wv_ok_iff_hist o cs e v hlen h]
+  have hdep : e.m.depth = e.m.stack.length + 1 := rfl
+  rw [hdep]
+  constructor
+  · rintro ⟨out, rest, hr, hws, hv, hn⟩
+    refine ⟨hg.mp ⟨out, rest, hr, hws⟩, hv, fun hk hdup hpos out' rest' hr' => ?_⟩
+    rw [hr] at hr'
+    simp only [Except.ok.injEq, Prod.mk.injEq] at hr'
+    rw [← hr'.1]; exact hn hk hdup hpos
+  · rintro ⟨hgr, hv, hn⟩
+    obtain ⟨out, rest, hr, hws⟩ := hg.mpr hgr
+    exact ⟨out, rest, hr, hws, hv, fun hk hdup hpos => hn hk hdup hpos out rest hr⟩
 
 end Encoder
 
